@@ -752,10 +752,15 @@ def tokenize(content: str, lenient: bool = False) -> tuple[list[Token], list[Any
     content, fence_spans = _normalize_with_fence_detection(content)
 
     # Check for tabs OUTSIDE literal zones only (Issue #235: tab bypass)
+    # fence_spans are in document order and do not overlap: advance one cursor instead of
+    # scanning every span for every tab (quadratic for many zones holding tabs)
+    tab_span_idx = 0
     for i, char in enumerate(content):
         if char == "\t":
-            # Check if this position falls within any fence span
-            in_literal = any(start <= i < end for start, end, _, _ in fence_spans)
+            # Check if this position falls within a fence span
+            while tab_span_idx < len(fence_spans) and fence_spans[tab_span_idx][1] <= i:
+                tab_span_idx += 1
+            in_literal = tab_span_idx < len(fence_spans) and fence_spans[tab_span_idx][0] <= i
             if not in_literal:
                 tab_line = content[:i].count("\n") + 1
                 tab_column = len(content[:i].split("\n")[-1]) + 1
